@@ -33,6 +33,7 @@ def configs(tier):
                 out.append(dict(shape=list(shape)))
         out += [dict(shape=[4]), dict(shape=[5]), dict(shape=[4, 2]), dict(shape=[2, 4])]
         out += [dict(shape=list(sh), history=True) for sh in ((3,), (2, 2), (3, 2), (1, 3), (2, 1, 2), (2, 2, 2))]
+        out += [dict(shape=list(sh), caller_array=True) for sh in ((3,), (2, 3), (2, 1, 2))]
     else:
         for n in range(1, 13):
             out.append(dict(shape=[n]))
@@ -43,6 +44,7 @@ def configs(tier):
         for dim in (1, 2, 3):
             for shape in itertools.product(range(1, 4), repeat=dim):
                 out.append(dict(shape=list(shape), history=True))
+                out.append(dict(shape=list(shape), caller_array=True))
     return out
 
 
@@ -84,7 +86,13 @@ def body(cfg):
         darsia.FVMass(grid0, "faces").mat.diagonal()
         darsia.FVFullFaceReconstruction(grid0)(u0)
         darsia.face_to_cell(grid0, u0)
-    grid = darsia.Grid(shape, list(h))
+    if cfg.get("caller_array"):
+        # voxel sizes handed over as an ndarray that the caller goes on using (here: halves it in place for a finer level)
+        hv = np.array(h, dtype=object if S.instrumented() else float)
+        grid = darsia.Grid(shape, hv)
+        hv *= 0.5
+    else:
+        grid = darsia.Grid(shape, list(h))
     nc = int(np.prod(shape))
     nf_axis = [O.num_faces_axis(d, shape) for d in range(dim)]
     nf = sum(nf_axis)
@@ -225,7 +233,9 @@ def body(cfg):
     for d in range(dim):
         for j in O.faces(d, shape):
             un[O.face_id(d, j, shape)] = a[d]
-    full = darsia.FVFullFaceReconstruction(grid)(un)
+    R = darsia.FVFullFaceReconstruction(grid)
+    full = R(un)
+    full_snapshot = full.copy()
     ok = []
     for d in range(dim):
         for f in grid.interior_faces[d]:
@@ -235,7 +245,8 @@ def body(cfg):
             ok.append(S.eq(full[O.face_id(d, j, shape), d], a[d]))
     S.claim("tangential_reconstruction_reproduces_constants_on_interior_faces", S.and_(ok))
     # generic flux: tangential component = mean of the (up to four) orthogonal neighbour faces
-    fullu = darsia.FVFullFaceReconstruction(grid)(u)
+    fullu = R(u)  # the SAME operator: its earlier result must survive
+    S.claim("earlier_reconstruction_result_is_left_intact_by_a_later_call", S.and_(full is not fullu, S.eq(full, full_snapshot)))
     ok = []
     for d in range(dim):
         for j in O.faces(d, shape):
